@@ -40,6 +40,7 @@ var largePolicies = []policyPick{
 	{"variable-length lists", map[string]int{"list-form": -1}},
 	{"untyped variable-length lists, typed maps", map[string]int{"list-form": -1, "list-untype": 1, "map-addtype": 1}},
 	{"class definitions hoisted, long object form", map[string]int{"hoist-classdef": 1, "object-form": 1}},
+	{"class definitions hoisted in the reverse of the order of first use", map[string]int{"hoist-classdef": 1, "hoist-order": 1}},
 	{"widest number forms, full dates", map[string]int{"int-form": -1, "long-form": -1, "double-form": -1, "date-form": 1}},
 	{"strings and binaries in three chunks, widest final form", map[string]int{"str-split": -1, "bin-split": -1, "str-final": -1, "bin-final": -1}},
 }
